@@ -379,7 +379,7 @@ def c03(run):
     obs_stage(run, "histories", _q(run, 400, 8000), ["C03"], "histories of 1-4 calls in mixed formats and supply modes on one Translator")
     # one command-line invocation with several inputs in different formats: stdout = the concatenation
     cli_stage(run, _q(run, "MC_XtCli_c03.cfg", "MC_XtCli_c03_thorough.cfg"), "several inputs in mixed formats on one command line: stdout is the ordered concatenation of the library translations",
-              tty_maxlen=0, file_maxlen=0)
+              tty_maxlen=0, file_maxlen=0, stdin_file=True)
 
 
 def cli_lag_stage(run):
@@ -490,6 +490,9 @@ def c11(run):
     run.add_traces(summ["evaluations"], r, "XtErrText text rules")
     run.assumptions += ["input-side = the mutated input fails for every streaming target; the serializer's reason = the message minus the synthetic 'translation failed[ at ...]' part",
                         "rmp-serde does not display the underlying I/O error, so the injected writer text is demanded only of the JSON, YAML and TOML targets"]
+    # the same texts as the command line prints them: 'xt error in <input>: ' followed by the library's message, whole
+    cli_stage(run, "MC_XtCli_c11.cfg", "error reports on the command line name the input and carry the library's message unabridged (also a 1.3 KB TOML parser message)",
+              tty_maxlen=0, file_maxlen=0)
 
 
 def c07(run):
@@ -953,6 +956,9 @@ def c13(run):
                 "XtCli predicts (exit status, what is on stdout, the class of stderr and the input it names) and checks the C13 invariants in every state; each vector is run on "
                 "the debug or release binary and compared; non-trivial = at least 2 tokens")
     cli_stage(run, _q(run, "MC_XtCli.cfg", "MC_XtCli_thorough.cfg"), "exit status and stream discipline for every argument vector")
+    # exit 0 means the input was translated AND written: an output device that refuses the bytes is exit 1 with a message
+    cli_stage(run, "MC_XtCli_c15_full.cfg", "standard output on a full device: never exit 0, always a plain error line (every target, small outputs that sit in the buffer until the flush)",
+              failing_stdout=True)
     run.assumptions += ["the sandbox runs as root, so 'unreadable' operands are represented by missing files and a directory",
                         "what the library does for each (content, source selection, target) is measured with xt::translate_* and given to TLC as the constant Lib"]
     run.exhaustive = True
